@@ -11,7 +11,7 @@ RULE = ('case = generated annotation with mass-resolvable modifications of every
         'least two kinds of which one is not a plain residue modification')
 ASSUMPTIONS = [
     'reference shifts per site come from pv/refmods.py / pv/refchem.py; the per-site clause is asserted only for inputs whose modifications all have a definite site',
-    'mass tolerance: half a unit of the precision per shift written (+2e-6 per residue whose net shift is below the documented 1e-6 significance threshold); input and output are both weighed by the library, so tabulated-vs-composition differences of a named modification get no allowance',
+    'mass tolerance: half a unit of the precision per shift written (and per residue whose shift rounds to zero at that precision, which need not be written); input and output are both weighed by the library, so tabulated-vs-composition differences of a named modification get no allowance',
     'unknown-position and interval modifications may stay in the result as numeric shifts at the same place (they have no residue of their own); static rules and isotope labels must be gone',
     'a static N-Term / C-Term rule modifies the terminus, so its shift is expected on the terminus (as condense_static_mods writes it), not on the terminal residue',
 ]
@@ -107,11 +107,12 @@ def check_case(case) -> Result:
     # 1e-6 significance threshold is not written; under an isotope label named modifications are weighed through their composition
     # (C03 tolerance 1e-4 each)
     E_all = model.expand_static(pep)
-    small = sum(1 for _i, ms in E_all['internal'] if 0 < abs(refmods.mods_mass(ms, True)) <= 2e-6)
+    # a residue whose shift rounds to zero at this precision need not be written: it costs at most half a unit, like a written one
+    small = sum(1 for _i, ms in E_all['internal'] if 0 < abs(refmods.mods_mass(ms, True)) <= 0.5 * 10 ** (-prec))
     named = sum(mm for t, mm in refmass.all_mods(pep) if refmods.resolve(t)['kind'] in ('unimod', 'psimod', 'glycan'))
     # (both masses come from the library's mass(): a named modification under a label needs no allowance of its own - the condensed
     # shift is what mass() weighs, composition-based under a label; 3e-8 per charge for the proton constant vs hydrogen minus electron)
-    tol = 0.5 * 10 ** (-prec) * max(1, shifts) + 1e-9 + 2e-6 * small + (3e-8 * (1 + abs(pep['charge'] or 0)) if pep['isotope'] else 0)
+    tol = 0.5 * 10 ** (-prec) * (shifts + small) + 1e-9 + (3e-8 * (1 + abs(pep['charge'] or 0)) if pep['isotope'] else 0)
     diff = m_out - m_in
     if abs(diff) > tol:
         # known repetition of annotations that have no single residue: they are added once per residue of the split
@@ -162,7 +163,7 @@ def check_case(case) -> Result:
             exp = refmods.mods_mass(internal.get(i, []), True) + _label_delta(pep['isotope'], refchem.RESIDUES[aa])
             got = sum(v[1] * m for v, m in oi.get(str(i), []))
             site_named = sum(mm for t, mm in internal.get(i, []) if refmods.resolve(t)['kind'] in ('unimod', 'psimod', 'glycan'))
-            if abs(got - exp) > 0.5 * 10 ** (-prec) + 2e-6 + (1e-4 * site_named if pep['isotope'] else 0):  # (reference: tabulated masses)
+            if abs(got - exp) > 0.5 * 10 ** (-prec) + 1e-8 + (1e-4 * site_named if pep['isotope'] else 0):  # (reference: tabulated masses)
                 r.fail('the shifts sit on the residues that were modified (rules and labels expanded per residue)', 'C18/site/residue',
                        index=i, expected=exp, got=got, result=out, **ctx)
                 break
@@ -180,7 +181,7 @@ def check_case(case) -> Result:
 
 
 def strategy():
-    small = st.tuples(st.sampled_from(['0.005', '-0.003', '+0.0005', '0.00002', '0.0011']), st.just(1)).map(list)
+    small = st.tuples(st.sampled_from(['0.005', '-0.003', '+0.0005', '0.00002', '0.0011', '0.0000009', '-0.0000004', '0.00000012']), st.just(1)).map(list)
     one = st.one_of(gen.mass_mod(('num', 'formula', 'unimod', 'glycan'), max_mult=3, decorate=True), gen.mass_mod(('num', 'formula', 'unimod', 'glycan'), max_mult=3, decorate=True), gen.mass_mod(('num', 'formula', 'unimod', 'glycan', 'psi'), max_mult=3, decorate=True), small)
     st_text = gen.mass_mod_text(('num', 'formula', 'unimod'), gt_ok=False)
     pm = gen.pep_model(alphabet=gen.AA_MASS.replace('X', ''), min_len=1, max_len=15, kinds=KINDS, mod_strategy=one,
